@@ -209,8 +209,8 @@ func singleSource(c *core.Ctx, v ssa.Value) ssa.Value {
 	for hop := 0; hop < 6; hop++ {
 		v = an.Strip(v)
 		switch x := v.(type) {
-		case *ssa.FieldAddr:
-			fld := an.FieldOfAddr(x)
+		case *ssa.FieldAddr, *ssa.Field:
+			fld := an.FieldOfAddr(x.(ssa.Value))
 			if fld == nil || fld.Pkg() == nil {
 				return v
 			}
